@@ -70,7 +70,7 @@ def roundtrip(run, repo, label, specs, write_date=False, as_dict=False, fmt='lis
     wfn, rfn = m.functions.get('write_thermdat'), m.functions.get('read_thermdat')
     if wfn is None or rfn is None:
         raise AnchorError('write_thermdat/read_thermdat not found')
-    I = Interp(repo, order=RankOrder({}, const_ranks=True), max_depth=12)
+    I = Interp(repo, order=RankOrder({}, const_ranks=True))
     built = []
 
     def nasa_stub(I_, fr, args, kwargs):
